@@ -15,6 +15,7 @@ import (
 	"sort"
 	"strconv"
 	"strings"
+	"sync"
 	"testing"
 	"time"
 	"unicode"
@@ -57,7 +58,12 @@ type Line struct {
 	SpL   int    `json:"spl,omitempty"`   // kv: blanks before '='
 	SpR   int    `json:"spr,omitempty"`   // kv: blanks after '='
 	Text  string `json:"text,omitempty"`  // comment / blank: the complete line
+	Pad   int    `json:"pad,omitempty"`   // comment: this many '.' follow Text (lines longer than an I/O buffer)
 }
+
+// findingLongLines: write-back splits lines longer than 4096 bytes (candidate
+// finding of this check; long lines are generated unless it is listed as open).
+const findingLongLines = "F181"
 
 type File struct {
 	Lines          []Line `json:"lines"`
@@ -86,7 +92,7 @@ func escapeValue(v string, style int) string {
 
 func (l Line) render() string {
 	if l.Kind != "kv" {
-		return l.Text
+		return l.Text + strings.Repeat(".", l.Pad)
 	}
 	return strings.Repeat(" ", l.Lead) + l.Key + strings.Repeat(" ", l.SpL) + "=" + strings.Repeat(" ", l.SpR) + escapeValue(l.Val, l.Style)
 }
@@ -430,7 +436,7 @@ func genComment() *rapid.Generator[string] {
 }
 
 // genFile draws a file whose kv lines use distinct keys of the pool.
-func genFile(t *rapid.T, pool []string, maxLines int, emptyValues bool) File {
+func genFile(t *rapid.T, pool []string, maxLines int, emptyValues bool, sub ...string) File {
 	var f File
 	n := rapid.IntRange(0, maxLines).Draw(t, "nlines")
 	perm := rapid.Permutation(pool).Draw(t, "keyorder")
@@ -452,7 +458,15 @@ func genFile(t *rapid.T, pool []string, maxLines int, emptyValues bool) File {
 			l.SpR = rapid.SampledFrom([]int{0, 0, 0, 1, 2}).Draw(t, "spr")
 			f.Lines = append(f.Lines, l)
 		case k <= 8:
-			f.Lines = append(f.Lines, Line{Kind: "comment", Text: genComment().Draw(t, "comment")})
+			l := Line{Kind: "comment", Text: genComment().Draw(t, "comment")}
+			if len(sub) > 0 && rapid.IntRange(0, 11).Draw(t, "longline?") == 0 {
+				if pbt.KnownOpen(findingLongLines) {
+					pbt.CountExcluded(sub[0], 1)
+				} else {
+					l.Pad = rapid.SampledFrom([]int{3000, 4070, 4090, 4096, 5000, 9000}).Draw(t, "pad")
+				}
+			}
+			f.Lines = append(f.Lines, l)
 		default:
 			f.Lines = append(f.Lines, Line{Kind: "blank", Text: rapid.SampledFrom([]string{"", "", "  ", "\t"}).Draw(t, "blank")})
 		}
@@ -483,8 +497,8 @@ func checkCaseFile(f *File) error {
 				return fmt.Errorf("case precondition: key %q is an environment variable", l.Key)
 			}
 		case "comment", "blank":
-			if strings.ContainsAny(l.Text, "\r\n") {
-				return fmt.Errorf("case precondition: line break inside a line")
+			if strings.ContainsAny(l.Text, "\r\n") || l.Pad < 0 || (l.Pad > 0 && l.Kind != "comment") {
+				return fmt.Errorf("case precondition: line break inside a line / padding")
 			}
 			b := strings.TrimLeft(l.Text, propBlanks)
 			if l.Kind == "blank" && b != "" || l.Kind == "comment" && (b == "" || (b[0] != '#' && b[0] != '!')) {
@@ -509,8 +523,40 @@ func checkCaseFile(f *File) error {
 	return nil
 }
 
+// tempBase prefers a memory-backed directory: the write-back path syncs the file,
+// which on a busy disk costs far more than everything else the checks do.
+var tempBase = func() string {
+	if d, err := os.MkdirTemp("/dev/shm", "verif-c18-probe-"); err == nil {
+		os.RemoveAll(d)
+		return "/dev/shm"
+	}
+	return ""
+}()
+
+// guard arms the hang detector for one in-process case: a reload that never
+// returns (for instance a lock held while observers call getters) cannot be
+// cancelled, so the watchdog stores the case as replay file and ends the process.
+var (
+	wdMu sync.Mutex
+	wds  = map[string]*pbt.Watchdog{}
+)
+
+const hangLimit = 30 * time.Second
+
+func guard(check string, c interface{}) (done func()) {
+	wdMu.Lock()
+	w := wds[check]
+	if w == nil {
+		w = pbt.NewWatchdog("C18", check, hangLimit)
+		wds[check] = w
+	}
+	wdMu.Unlock()
+	w.Begin(c, "the case did not finish (a reload, getter or SetValues call never returned)")
+	return w.End
+}
+
 func mkHome() string {
-	d, err := os.MkdirTemp("", "verif-c18-")
+	d, err := os.MkdirTemp(tempBase, "verif-c18-")
 	if err != nil {
 		panic(err)
 	}
